@@ -72,6 +72,12 @@ package common
 //@   at Delete(ri, ctx, n, opts) [C01,C06]: differs
 //@   at Delete(ri, ctx, n, opts) [C02]: opts.Preconditions != nil && opts.Preconditions.UID != nil && *opts.Preconditions.UID == oldObj.GetUID() && n == obj.GetName()
 //@   at Delete(ri, ctx, n, opts) [C02,C06]: opts.PropagationPolicy != nil && *opts.PropagationPolicy == metav1.DeletePropagationBackground
+//@   // server-side apply: what is sent is the marshalled desired object - it must carry the controller owner reference to the parent
+//@   // like every object created through the dynamic path ("every object metacontroller creates is born with a controller owner
+//@   // reference to the parent"; an apply that omits it would also drop the reference it applied earlier)
+//@   bind call IsControlledBy: alreadyOurs
+//@   at Marshal#1(v) [C02]: typeis(v, *unstructured.Unstructured) && unbox(v, *unstructured.Unstructured) == obj && called(IsControlledBy)
+//@   at Marshal#1(v) [C02]: alreadyOurs || (ownerLen(obj) >= 1 && ownerAt(obj, ownerLen(obj)-1).UID == parent.GetUID() && ownerAt(obj, ownerLen(obj)-1).Controller != nil && *ownerAt(obj, ownerLen(obj)-1).Controller)
 //@   at Create(ri, ctx, body, opts) [C01,C02,C06]: dyn && oldObj == nil && body == obj
 //@   at Create(ri, ctx, body, opts) [C02]: ownerLen(body) >= 1 && ownerAt(body, ownerLen(body)-1).UID == parent.GetUID() && ownerAt(body, ownerLen(body)-1).Controller != nil && *ownerAt(body, ownerLen(body)-1).Controller
 //@   at Create(ri, ctx, body, opts) [C02]: ownerAt(body, ownerLen(body)-1).Name == parent.GetName() && ownerAt(body, ownerLen(body)-1).Kind == parent.GetKind() && ownerAt(body, ownerLen(body)-1).APIVersion == parent.GetAPIVersion()
